@@ -185,6 +185,17 @@ def run(chk):
         ("max_returns=0", dict(max_returns=0), {"maxReturnsIsNone": False, "maxReturnsIsInt": True, "maxReturns": 0}),
         ("max_returns=1.5", dict(max_returns=1.5), {"maxReturnsIsNone": False, "maxReturnsIsInt": False}),
         ("output_type=unknown", dict(output_type="dense"), {"outputKnown": False}),
+        # near misses: fragments, concatenations, other case, other types - a name is known only if it IS one of the three
+        ("output_type=empty-string", dict(output_type=""), {"outputKnown": False}),
+        ("output_type=fragment-coo", dict(output_type="coo"), {"outputKnown": False}),
+        ("output_type=fragment-matrix", dict(output_type="matrix"), {"outputKnown": False}),
+        ("output_type=fragment-array", dict(output_type="array"), {"outputKnown": False}),
+        ("output_type=fragment-triplet", dict(output_type="triplet"), {"outputKnown": False}),
+        ("output_type=concatenation", dict(output_type="tripletscoo_matrix"), {"outputKnown": False}),
+        ("output_type=upper-case", dict(output_type="NDARRAY"), {"outputKnown": False}),
+        ("output_type=trailing-blank", dict(output_type="ndarray "), {"outputKnown": False}),
+        ("output_type=None", dict(output_type=None), {"outputKnown": False}),
+        ("output_type=tuple", dict(output_type=("triplets",)), {"outputKnown": False}),
         ("custom_distance=bad-string", dict(custom_distance="levenshtein"), {"customOk": False}),
         ("custom_distance=nonzero-self", dict(custom_distance=lambda a, b: 1), {"customOk": False}),
         ("max_custom_distance=-1", dict(custom_distance=dist0, max_custom_distance=-1), {"mcdNonneg": False}),
